@@ -802,6 +802,15 @@ def nontrivial(case, data):
 def run_case(ctx, case):
     ELFFile, ELFError = lib()
     data = materialize(case)
+    if case.get('bb'):
+        # replay of a finding of the -bb child: one input, in a child interpreter again
+        import base64
+        from vf import childenv
+        res = childenv.run(_BB_CHILD, {'inputs': [base64.b64encode(data).decode('ascii')]}, core.REPO, flags=('-bb',), legacy=False)
+        for _k, name, msg in res['bad']:
+            ctx.fail('open|interpreter=-bb|%s' % name, 'under python -bb ELFFile() raised %s: %s' % (name, msg), case)
+        ctx.case(('bb', data), True)
+        return
     family = case.get('family', 'replay')
     ctx.count('family.' + family)
     stream = CountingBytesIO(data)
@@ -1087,7 +1096,69 @@ ENUMS = (enum_truncations, enum_big_truncations, enum_byte_subst, enum_single_fi
          enum_record_pairs, enum_escape_triples, enum_alloc)
 
 
+_BB_CHILD = r'''
+import sys, io, json, base64, warnings
+import elftools
+from elftools.elf.elffile import ELFFile
+from elftools.common.exceptions import ELFError
+doc = json.load(sys.stdin)
+out = {'lib': elftools.__file__, 'bytes_warning': sys.flags.bytes_warning, 'bad': [], 'ok': 0, 'elferror': 0}
+for k, item in enumerate(doc['inputs']):
+    data = base64.b64decode(item)
+    try:
+        ELFFile(io.BytesIO(data))
+        out['ok'] += 1
+    except ELFError:
+        out['elferror'] += 1
+    except BaseException as e:
+        out['bad'].append([k, type(e).__name__, str(e)[:120]])
+sys.stdout.write(json.dumps(out))
+'''
+
+
+def bb_inputs(tier):
+    """deterministic constructor inputs for the -bb child: every truncation of the first 80 bytes and {0x00,0x03,0x81,0xff} in each of the
+    first 24 bytes of the generated seeds"""
+    out = []
+    for src in gen_seed_names()[:6 if tier == 'quick' else None]:
+        seed = seed_bytes(src)
+        for n in range(0, min(len(seed), 80) + 1):
+            out.append((src, [['trunc', n]], seed[:n]))
+        for off in range(24):
+            for v in (0x00, 0x03, 0x81, 0xff):
+                if off < len(seed) and seed[off] != v:
+                    out.append((src, [['byte', off, v]], seed[:off] + bytes([v]) + seed[off + 1:]))
+    return out
+
+
+def run_bb(ctx, tier):
+    """Property (a) in an interpreter started with -bb (str() of a bytes object is an error there; the flag is fixed at start-up): the
+    constructor still only succeeds or raises ELFError."""
+    import base64
+    from vf import childenv
+    inputs = bb_inputs(tier)
+    try:
+        res = childenv.run(_BB_CHILD, {'inputs': [base64.b64encode(d).decode('ascii') for _s, _m, d in inputs]}, core.REPO, flags=('-bb',), legacy=False)
+    except Exception as e:  # noqa
+        raise core.HarnessError('C19 -bb child interpreter: %s' % e)
+    if os.path.realpath(os.path.dirname(os.path.dirname(res['lib']))) != os.path.realpath(core.REPO) or res['bytes_warning'] < 2:
+        raise core.HarnessError('-bb child interpreter: imported %s, bytes_warning=%r' % (res['lib'], res['bytes_warning']))
+    for k, name, msg in res['bad']:
+        src, muts, data = inputs[k]
+        case = make_case(src, muts, 'bb')
+        case['data'] = data
+        case['bb'] = True
+        ctx.fail('open|interpreter=-bb|%s' % name, 'under python -bb ELFFile() raised %s: %s' % (name, msg), case)
+    ctx.count('bb.inputs', len(inputs))
+    ctx.count('bb.ok', res['ok'])
+    ctx.count('bb.ELFError', res['elferror'])
+    ctx.evaluations += len(inputs)
+    ctx.counters['bulk_nontrivial'] += len(inputs)
+
+
 def bulk(ctx, tier, shard, nshards):
+    if shard == nshards - 1:
+        run_bb(ctx, tier)
     for en in ENUMS:
         for case in _sharded(en, tier, shard, nshards):
             ctx.cur_buckets = set()
